@@ -113,4 +113,4 @@ Definition fs_collect (f : fs) (loc : path) : list path :=
   filter is_lua_path (fs_walk f loc).
 
 (** [Path::strip_prefix] then [Path::join]: mirror a path from [from] to [to] *)
-Definition rebase (from to p : path) : path := to ++ skipn (length from) p.
+Definition rebase (from to p : path) : path := (to ++ skipn (List.length from) p)%list.
